@@ -101,6 +101,13 @@ var (
 	ErrSignatureEmpty = errors.New("signature is empty")
 )
 
+// Validate is what go-header calls on every header received over P2P before it is stored or served.
+// Without it the method promoted from the embedded (unsigned) Header would be used, which only checks that a
+// proposer address is present, so unsigned or garbage-signed headers would be admitted to the header store.
+func (sh *SignedHeader) Validate() error {
+	return sh.ValidateBasic()
+}
+
 // ValidateBasic performs basic validation of a signed header.
 func (sh *SignedHeader) ValidateBasic() error {
 	if err := sh.Header.ValidateBasic(); err != nil {
